@@ -11,7 +11,7 @@
     (C06_limit_partial).  [hits_of] is the model's "tables in scope having the
     column"; that it is the set the DATABASE would consult is the part decided
     per case against Spec/PgScope (it fails for the known-finding classes). *)
-From Verif Require Import Model.Compile Spec.PgScope Judge.JQ Judge.J02 Judge.J06 Proofs.ParamsFacts Proofs.ParamTypeFacts Proofs.SelectRefine Proofs.ParamRefine.
+From Verif Require Import Model.Compile Spec.PgScope Judge.JQ Judge.J02 Judge.J06 Proofs.ParamsFacts Proofs.ParamTypeFacts Proofs.SelectRefine Proofs.ParamRefine Proofs.ParamRefineQ.
 Open Scope list_scope.
 
 Definition C06_full_statement : Prop :=
@@ -111,3 +111,27 @@ Theorem C06_compare_refines_partial : forall (e : env) (rvs : list node),
   end.
 Proof. exact compare_refines. Qed.
 Print Assumptions C06_compare_refines_partial.
+
+(** ... and with a QUALIFIED column, q.col OP $n, q being the visible name of a
+    relation in scope (its alias, or its own name if it has none - an aliased
+    table is not visible under its own name: the proof of this theorem needed
+    that, the code did not have it; fix: commit 9df6005).  [alias_pairs] and
+    [bare_of] are the alias table and the own-name table resolveCatalogRefs
+    builds from the range vars.  An unknown qualifier is the finding
+    unknown_qualifier_next_to_parameter_accepted. *)
+Theorem C06_compare_qualified_refines_partial : forall (e : env) (rvs : list node),
+  (forall t tb, cat_get_table (env_cat e) t = Some tb -> NoDup (map col_name (tab_cols tb))) ->
+  NoDup (map visible_name rvs) ->
+  forall sc dt names r n lref rest rv q key,
+  spec_scope (env_cat e) rvs = POk sc -> In rv rvs -> visible_name rv = q -> q <> ""%string ->
+  pr_parent r = PNode n -> kind_of n = "A_Expr"%string ->
+  search (is_kind "ColumnRef") (kid "Lexpr" n) = lref :: rest ->
+  string_items (kid "Fields" lref) = [q; key] ->
+  match resolve_qualified [sc] q key with
+  | POk x => exists col, src_col x = Some col /\
+               resolve_one e (map table_of_rangevar rvs) (bare_of rvs) (rev (alias_pairs rvs)) dt names r
+               = Ok [param_of_column names (ref_number r) key (table_of_rangevar rv) col]
+  | PErr _ => exists m, resolve_one e (map table_of_rangevar rvs) (bare_of rvs) (rev (alias_pairs rvs)) dt names r = Err m
+  end.
+Proof. exact compare_qualified_refines. Qed.
+Print Assumptions C06_compare_qualified_refines_partial.
